@@ -165,7 +165,7 @@ NoEntryDenied == \A u \in QU \ {Super}, s \in QS, r \in Required :
                      Deciding(table, u, s) = Absent => ~Allow(table, u, s, r)
 
 (* a decision depends on the four cells of its chain only *)
-InChain(c, u, s) == \E i \in 1..4 : Chain(u, s)[i] = c
+InChain(c, u, s) == (c[1] = u \/ c[1] = DU) /\ (c[2] = s \/ c[2] = DS)     \* c is one of Chain(u, s)
 Isolation == [][ LET c == CHOOSE d \in Cells : table'[d] # table[d]     \* SetCell changes exactly one
                  IN \A u \in QU, s \in QS : ~InChain(c, u, s) =>
                         \A r \in Required : Allow(table', u, s, r) = Allow(table, u, s, r) ]_vars
